@@ -1,2 +1,21 @@
-From HV Require Import Model.Hover.
-Theorem C12_tmp : True. Proof. exact I. Qed.
+(* C12 - hover describes the element under the cursor and its range contains the cursor.
+   Model: Model/Hover.v (hoverAtPos at body level), compared with HoverAtPos on every run. *)
+From Coq Require Import String List ZArith Bool.
+From HV Require Import Base.Pos Model.Schema Model.Ast Model.Merge Model.Hover Proofs.HoverProofs.
+
+(* whenever hover data is returned for an attribute name, block type or label - at any nesting
+   depth - its range contains the cursor *)
+Theorem C12_hover_range_contains_cursor : forall p b bs c r,
+  hover_body p b bs = HHover c r -> contains_pos r p = true.
+Proof. exact hover_range_contains_cursor. Qed.
+Print Assumptions C12_hover_range_contains_cursor.
+
+(* on a dependency-key label the content names the label value and is taken from the dependent
+   body whenever it resolves fully or partially *)
+Theorem C12_label_hover_uses_dependent_body : forall i k s ls b dk res,
+  nth_error (bk_labels s) i = Some ls -> ls_depkey ls = true ->
+  dependent_body_schema s k = (Some b, dk, res) -> (res = LookupSuccessful \/ res = LookupPartiallySuccessful) ->
+  bs_hover_url b = ""%string ->
+  exists tail, hover_label i k s = Some (("`" ++ nth i (k_labels k) "" ++ "`" ++ tail)%string).
+Proof. exact label_hover_uses_dependent_body. Qed.
+Print Assumptions C12_label_hover_uses_dependent_body.
